@@ -89,7 +89,9 @@ func (r *Reassembler) PushMessage(msg *auparse.AuditMessage) {
 	}
 
 	r.list.Put(msg)
+	verifYield(r, "push:afterPut")
 	evicted, lost := r.list.CleanUp()
+	verifYield(r, "push:afterCleanUp")
 	r.callback(evicted, lost)
 }
 
@@ -114,7 +116,9 @@ func (r *Reassembler) Maintain() error {
 	if atomic.LoadInt32(&r.closed) == 1 {
 		return errReassemblerClosed
 	}
+	verifYield(r, "maintain:afterClosedCheck")
 	evicted, lost := r.list.CleanUp()
+	verifYield(r, "maintain:afterCleanUp")
 	r.callback(evicted, lost)
 	return nil
 }
@@ -122,7 +126,9 @@ func (r *Reassembler) Maintain() error {
 // Close flushes any cached events and closes the Reassembler.
 func (r *Reassembler) Close() error {
 	if atomic.CompareAndSwapInt32(&r.closed, 0, 1) {
+		verifYield(r, "close:afterCAS")
 		evicted, lost := r.list.Clear()
+		verifYield(r, "close:afterClear")
 		r.callback(evicted, lost)
 		return nil
 	}
@@ -131,10 +137,12 @@ func (r *Reassembler) Close() error {
 
 func (r *Reassembler) callback(events []*event, lost int) {
 	for _, e := range events {
+		verifYield(r, "cb:beforeDeliver")
 		r.stream.ReassemblyComplete(e.msgs)
 	}
 
 	if lost > 0 {
+		verifYield(r, "cb:beforeLost")
 		r.stream.EventsLost(lost)
 	}
 }
